@@ -162,6 +162,10 @@ def parseCmd {S} (cd : Codec S) (toks : List String) : Option (Cmd S) :=
     pure (.convl l (← f.toNat?) (← d.toNat?) (← r.toNat?) (← c.toNat?) (← sr.toNat?) (← sc'.toNat?)
       (← parseAct act) (← scs w) (← scs b))
   | ["lfwd", w, l, a] => some (.lfwd w l a)
+  | ["act", w, kind, a] =>
+    -- the activation closures are the array methods (`hAct` = `hRelu` / `hSigmoid` / `hSoftmax`)
+    if kind == "relu" then some (.relu w a) else if kind == "sigmoid" then some (.sigmoid w a)
+    else if kind == "softmax" then some (.softmax w a) else none
   | ["lflag", l, which, tr] => do pure (.lflag l (← which.toNat?) (tr == "1"))
   | ["model", m, cost, lr, ls] => do
     let c ← if cost == "mse" then some Cost.mse else if cost == "xent" then some Cost.xent else none
